@@ -390,3 +390,46 @@ def check_sort_after_reorder(prog, rep, units):
                               '(line %d): the check looks at the wrong legs' %
                               (x, min(leg_checks), max(reorders[x])), max(reorders[x]))
     return n
+
+
+def check_augassign_guards(prog, rep, pairs, pyx):
+    """PAIR-augassign-guards: an in-place update (`x[..] -= e`, `x += e`) of a local array that BOTH
+    twins perform is performed under the same branch conditions in both (loop headers are not
+    conditions). A twin that applies the update only in one branch leaves the array different for
+    the inputs of the other branch (LegPipe(.., bunch=False): q_map slices not made relative)."""
+    def augs(fn):
+        out = {}
+        for a in ast.walk(fn):
+            if not isinstance(a, ast.AugAssign):
+                continue
+            b = a.target
+            while isinstance(b, ast.Subscript):
+                b = b.value
+            if not isinstance(b, ast.Name):
+                continue
+            key = (b.id, type(a.op).__name__)
+            gs = frozenset((t, p) for t, p, e in guards_of(fn, a)
+                           if not isinstance(e, (ast.For, ast.While)))
+            out.setdefault(key, set()).add(gs)
+        return out
+    n = 0
+    for rel, q, f, repl in pairs:
+        if not pyx.has_func(repl):
+            continue
+        m = prog.module(rel)
+        af, ag = augs(f), augs(pyx.func(repl))
+        for k in sorted(set(af) & set(ag)):
+            n += 1
+            uncond_f = frozenset() in af[k]
+            uncond_g = frozenset() in ag[k]
+            rep.instance('PAIR-augassign-guards', {'pair': repl, 'update': '%s %s=' % k,
+                                                  'python_unconditional': uncond_f,
+                                                  'compiled_unconditional': uncond_g})
+            if uncond_f != uncond_g:
+                cond = sorted(next(iter(af[k] if uncond_g else ag[k])))
+                rep.violation('PAIR-augassign-guards', m, q, 'augassign-guards:%s' % k[0],
+                              'both twins update `%s` in place, the %s one unconditionally, the '
+                              '%s one only under %s: for the other branch the two results differ'
+                              % (k[0], 'compiled' if uncond_g else 'python',
+                                 'python' if uncond_g else 'compiled', cond), f.lineno)
+    return n
